@@ -234,17 +234,11 @@ func (l *DList[T]) Pop() *DoubleNode[T] {
 // Find searches for a node element in the linked list.
 // It returns the node in case the element is found otherwise nil.
 func (l *DList[T]) Find(val T) (*DoubleNode[T], bool) {
-	head := &l.DoubleNode
-
 	for n := &l.DoubleNode; n != nil; n = n.next {
 		if n.Value == val {
-			l.DoubleNode = *head
 			return n, true
 		}
 	}
-
-	// Move the pointer to the head of the linked list.
-	l.DoubleNode = *head
 
 	return nil, false
 }
@@ -258,18 +252,13 @@ func (l *DList[T]) First() T {
 
 // Last retrieves the last element of the doubly linked list.
 func (l *DList[T]) Last() T {
-	head := l.DoubleNode
-	var value T
+	node := &l.DoubleNode
 
-	for l.DoubleNode.next != nil {
-		l.DoubleNode = *l.DoubleNode.next
+	for node.next != nil {
+		node = node.next
 	}
-	value = l.DoubleNode.Value
 
-	// Move the pointer to the head of the linked list.
-	l.DoubleNode = head
-
-	return value
+	return node.Value
 }
 
 // Each iterates over the elements of the linked list and invokes
